@@ -367,6 +367,7 @@ type FuncContract struct {
 	Strings  string
 	NoInline bool
 	Inline     []string // callees to inline although they have a contract (lemma functions that prove laws about them)
+	Chained    bool // later ensures may use earlier ones
 	AppendView bool // state the element view of append results with sla-triggers (needed for quantified slice facts)
 	Line     int
 }
@@ -395,6 +396,7 @@ type Lemma struct {
 }
 
 type Contracts struct {
+	Opaque  map[string]bool // kinds whose codecs are opaque enc_T/dec_T behind json.Marshal/Unmarshal
 	Funcs   map[string]*FuncContract
 	Order   []string
 	Defines map[string]*Define
@@ -409,7 +411,7 @@ type Contracts struct {
 }
 
 var clauseKw = map[string]bool{"excluding": true, "uses": true, "law": true, "defines": true, "assumes": true, "requires": true, "ensures": true, "assigns": true, "loop": true, "decreases": true, "property": true,
-	"pure": true, "inline": true, "appendview": true, "trusted": true, "strings": true, "noinline": true, "params": true}
+	"pure": true, "inline": true, "appendview": true, "chained": true, "trusted": true, "strings": true, "noinline": true, "params": true}
 
 func parseProps(s *string) []string {
 	// leading "[C01,C02]" tag
@@ -454,7 +456,7 @@ func loadContracts(path string) (*Contracts, error) {
 	sc := bufio.NewScanner(f)
 	sc.Buffer(make([]byte, 1<<20), 1<<20)
 	no := 0
-	top := map[string]bool{"func": true, "define": true, "specfn": true, "axiom": true, "lemma": true, "smt": true, "iface": true, "ext": true, "ghost": true}
+	top := map[string]bool{"func": true, "define": true, "specfn": true, "axiom": true, "lemma": true, "smt": true, "iface": true, "ext": true, "ghost": true, "opaque": true}
 	for sc.Scan() {
 		no++
 		t := sc.Text()
@@ -514,6 +516,8 @@ func loadContracts(path string) (*Contracts, error) {
 			cur.Pure = true
 		case "appendview":
 			cur.AppendView = true
+		case "chained":
+			cur.Chained = true
 		case "inline":
 			for _, k := range strings.Split(rest, ",") {
 				cur.Inline = append(cur.Inline, strings.TrimSpace(k))
@@ -525,6 +529,13 @@ func loadContracts(path string) (*Contracts, error) {
 			cur.Why = rest
 		case "strings":
 			cur.Strings = rest
+		case "opaque":
+			if c.Opaque == nil {
+				c.Opaque = map[string]bool{}
+			}
+			for _, k := range strings.FieldsFunc(rest, func(r rune) bool { return r == ',' || r == ' ' }) {
+				c.Opaque[k] = true
+			}
 		case "ghost":
 			// ghost name type   — a ghost variable of the whole run (changed only through contracts)
 			fs := strings.Fields(rest)
